@@ -12,6 +12,6 @@ def classLevelMutable : List String := []
 /-- functions with a mutable default argument -/
 def mutableDefaults : List String := []
 /-- module-level instances of module-defined classes referred to by code reachable from query() -/
-def sharedInstancesUsed : List String := ["float_num_handler"]
+def sharedInstancesUsed : List String := []
 
 end Rbql.Generated
